@@ -15,6 +15,7 @@ import (
 	"github.com/gogpu/naga/spirv"
 
 	"verif/internal/ctext"
+	"verif/internal/irx"
 	"verif/internal/spv"
 )
 
@@ -61,6 +62,32 @@ func Lower(src string) (m *ir.Module, stage string, err error) {
 
 func optBool(o map[string]string, k string) bool { return o[k] == "1" }
 
+// SkipModuleUnchanged disables the "caller's module is unchanged" oracle of the
+// override routes (set by C14 while the corresponding finding is open).
+var SkipModuleUnchanged bool
+
+// resolveOverrides applies the "process" override route: ProcessOverrides on a
+// clone; the caller's module must stay untouched.
+func resolveOverrides(m *ir.Module, c *Case) (*ir.Module, *Outcome) {
+	if c.Opts["ovroute"] != "process" {
+		return m, nil
+	}
+	h0 := irx.Hash(m)
+	clone := ir.CloneModuleForOverrides(m)
+	if err := ir.ProcessOverrides(clone, ir.PipelineConstants(c.Overrides)); err != nil {
+		return nil, &Outcome{Rejected: "overrides: " + err.Error()}
+	}
+	if irx.Hash(m) != h0 && !SkipModuleUnchanged {
+		fresh, _, _ := Lower(c.WGSL)
+		d := ""
+		if fresh != nil {
+			d = irx.Diff(fresh, m)
+		}
+		return nil, &Outcome{Bad: "ir.ProcessOverrides on a clone altered the caller's module: " + d}
+	}
+	return clone, nil
+}
+
 func parseVersion(s string, defMaj, defMin int) (int, int) {
 	p := strings.SplitN(s, ".", 2)
 	if len(p) != 2 {
@@ -96,6 +123,11 @@ func RunSPIRV(c *Case) (o Outcome) {
 		if err != nil {
 			return Outcome{Rejected: stage + ": " + err.Error()}
 		}
+		m2, bad := resolveOverrides(m, c)
+		if bad != nil {
+			return *bad
+		}
+		m = m2
 		b, err := naga.GenerateSPIRV(m, spirv.Options{Version: ver, Debug: optBool(c.Opts, "debug"), ForceLoopBounding: optBool(c.Opts, "loopbound")})
 		if err != nil {
 			return Outcome{Rejected: "spirv: " + err.Error()}
@@ -200,9 +232,25 @@ func RunGLSL(c *Case) (o Outcome) {
 			opts.BindingMap[glsl.BindingMapKey{Group: uint32(k[0]), Binding: uint32(k[1])}] = uint8(k[0]*16 + k[1])
 		}
 	}
+	m2, bad := resolveOverrides(m, c)
+	if bad != nil {
+		return *bad
+	}
+	m = m2
+	var h0 uint64
+	if c.Opts["ovroute"] == "pipeline" {
+		opts.PipelineConstants = ir.PipelineConstants(c.Overrides)
+		if opts.PipelineConstants == nil {
+			opts.PipelineConstants = ir.PipelineConstants{}
+		}
+		h0 = irx.Hash(m)
+	}
 	text, info, err := glsl.Compile(m, opts)
 	if err != nil {
 		return Outcome{Rejected: "glsl: " + err.Error()}
+	}
+	if c.Opts["ovroute"] == "pipeline" && irx.Hash(m) != h0 && !SkipModuleUnchanged {
+		return Outcome{Bad: "glsl.Compile with PipelineConstants altered the caller's module", Text: text}
 	}
 	p, err := ctext.Parse(ctext.GLSL, text)
 	if err != nil {
@@ -211,14 +259,30 @@ func RunGLSL(c *Case) (o Outcome) {
 		return o
 	}
 	cfg := ctext.RunConfig{Entry: "main", Buffers: map[ctext.Slot][]byte{}, BlockByName: map[string][]byte{}, NumWorkgroups: c.NumWG, StepLimit: c.StepBudget()}
-	for k, b := range init {
-		n := uint32(k[0]*16 + k[1])
-		cfg.Buffers[ctext.Slot{Class: 's', Index: n}] = b
-		cfg.Buffers[ctext.Slot{Class: 'u', Index: n}] = b
-	}
-	for _, u := range info.Uniforms {
-		if b, ok := init[[2]int{int(u.Binding.Group), int(u.Binding.Binding)}]; ok {
-			cfg.BlockByName[u.BlockName] = b
+	if opts.BindingMap != nil {
+		// explicit binding map: every block must carry layout(binding = N) with the mapped
+		// number (and the right class: 's' buffer / 'u' uniform); no fallback by name, so a
+		// wrong or missing binding qualifier shows up as an access to an unbound block
+		kinds := map[[2]int]bool{} // (group,binding) -> is storage
+		for _, u := range info.Uniforms {
+			kinds[[2]int{int(u.Binding.Group), int(u.Binding.Binding)}] = u.IsStorage
+		}
+		for k, b := range init {
+			n := uint32(k[0]*16 + k[1])
+			cls := byte('s')
+			if st, known := kinds[k]; known && !st {
+				cls = 'u'
+			} else if !known && isUniformVar(c.WGSL, k) {
+				cls = 'u'
+			}
+			cfg.Buffers[ctext.Slot{Class: cls, Index: n}] = b
+		}
+	} else {
+		// no binding qualifiers in the text: the GL API binds blocks by the reflected names
+		for _, u := range info.Uniforms {
+			if b, ok := init[[2]int{int(u.Binding.Group), int(u.Binding.Binding)}]; ok {
+				cfg.BlockByName[u.BlockName] = b
+			}
 		}
 	}
 	res, err := p.Run(cfg)
@@ -291,6 +355,11 @@ func RunHLSL(c *Case) (o Outcome) {
 			opts.BindingMap[hlsl.ResourceBinding{Group: uint32(k[0]), Binding: uint32(k[1])}] = hlsl.BindTarget{Space: uint8(s), Register: r}
 		}
 	}
+	m2, bad := resolveOverrides(m, c)
+	if bad != nil {
+		return *bad
+	}
+	m = m2
 	text, info, err := hlsl.Compile(m, opts)
 	if err != nil {
 		return Outcome{Rejected: "hlsl: " + err.Error()}
@@ -338,6 +407,12 @@ func RunHLSL(c *Case) (o Outcome) {
 	}
 	o.Buffers, o.Text = init, text
 	return o
+}
+
+// isUniformVar reports whether the WGSL resource at (group, binding) k is a var<uniform>.
+func isUniformVar(src string, k [2]int) bool {
+	m := regexp.MustCompile(fmt.Sprintf(`@group\(%d\)\s*@binding\(%d\)\s*var<\s*uniform`, k[0], k[1]))
+	return m.MatchString(src)
 }
 
 var reResource = regexp.MustCompile(`@group\((\d+)\)\s*@binding\((\d+)\)\s*var<[^>]*>\s*([A-Za-z_][A-Za-z0-9_]*)`)
@@ -424,9 +499,24 @@ func RunMSL(c *Case) (o Outcome) {
 			slotOf[g.key] = uint32(i)
 		}
 	}
-	text, info, err := msl.Compile(m, opts)
+	m2, bad := resolveOverrides(m, c)
+	if bad != nil {
+		return *bad
+	}
+	var h0 uint64
+	if c.Opts["ovroute"] == "pipeline" {
+		opts.PipelineConstants = map[string]float64{}
+		for k, v := range c.Overrides {
+			opts.PipelineConstants[k] = v
+		}
+		h0 = irx.Hash(m)
+	}
+	text, info, err := msl.Compile(m2, opts)
 	if err != nil {
 		return Outcome{Rejected: "msl: " + err.Error()}
+	}
+	if c.Opts["ovroute"] == "pipeline" && irx.Hash(m) != h0 && !SkipModuleUnchanged {
+		return Outcome{Bad: "msl.Compile with PipelineConstants altered the caller's module", Text: text}
 	}
 	p, err := ctext.Parse(ctext.MSL, text)
 	if err != nil {
